@@ -1,6 +1,8 @@
 """helpers shared by the per-property check modules"""
+import contextlib
 import importlib
 
+from vlib.env import Unanchored
 from vlib import env
 import tables
 
@@ -12,6 +14,16 @@ def t_oblig(run, name, ok, key=None, what=None, witness=None, engine='T'):
         k = run.violation(key or name, what or f'table lemma {name} fails on the current tree', witness=witness, obligation=name)
     run.oblig(name, bool(ok), engine, 'enum', 0.0, known=(k == 'known'))
     return bool(ok)
+
+
+@contextlib.contextmanager
+def anchored(run, group):
+    """a contract group whose function / region / table is not found in the current tree in the addressed shape is reported as UNANCHORED
+    (obligations not generated) and the rest of the check goes on; never a violation, never a crash"""
+    try:
+        yield
+    except Unanchored as e:
+        run.unanchored(group, e)
 
 
 def bounded_part(run, pid):
